@@ -62,13 +62,16 @@ def gen_system(rng, k):
         sd = ["t"] + rng.sample(["a", "b"], rng.randint(0, 2))
         has_proc = rng.random() < 0.8
         p = procs[rng.randint(1, nproc)] if has_proc else None
+        on_sysenv = has_proc and rng.random() < 0.15
+        if on_sysenv:                      # a stock attached to the system environment itself: its two entries meet there
+            p = "sysenv"
         mi, mo = rng.randint(1, 3), rng.randint(0, 2)
         inflow = _marg(uni, X, sd, mi)
         outflow = _marg(uni, X, sd, mo)
         stocks.append(dict(name=f"stock{s}", proc=p, dims=sd, inflow=inflow, outflow=outflow,
                            stock=[int(v) for v in np.cumsum(np.array(inflow).reshape([len(uni[l]['items']) for l in sd]) -
                                                             np.array(outflow).reshape([len(uni[l]['items']) for l in sd]), axis=0).flatten()]))
-        if has_proc:
+        if has_proc and not on_sysenv:
             d = fdims()
             flows.append(dict(name=f"f{len(flows)} sysenv => {p} (stock)", frm="sysenv", to=p, arr=dict(dims=d, values=_marg(uni, X, d, mi))))
             if mo:
